@@ -1,6 +1,6 @@
 //! C11 reader/writer transports: deviation-bounded exploration of environment answers.
 
-use crate::checks::c05::value_corpus;
+use crate::checks::c05::{real_decode, real_plain, value_corpus};
 use crate::dynval::{with_shape_borrows, Dyn};
 use crate::rt::{hex, set_case, trap, with_arena, Ctx};
 use rayon::prelude::*;
@@ -10,7 +10,7 @@ use std::rc::Rc;
 use std::sync::atomic::{AtomicU64, Ordering};
 use vmodel::glue::{AsData, Borrows};
 use vmodel::shape::*;
-use vmodel::spec::{spec_decode, spec_encode};
+use vmodel::spec::spec_decode;
 
 #[derive(Clone, Copy, Debug, PartialEq, Eq)]
 pub enum Ans {
@@ -391,16 +391,26 @@ pub fn run(ctx: &Ctx) {
     let execs = AtomicU64::new(0);
     let maxp = AtomicU64::new(0);
     let full_explored = AtomicU64::new(0);
+    // reference = the slice path of the real crate: e = to_allocvec(v), expected value = from_bytes(e).
+    // (the value slot of the tuple holds what slice decoding yields)
     let enc: Vec<(Shape, Val, Vec<u8>, usize)> = items
         .iter()
-        .map(|(s, v)| {
-            let e = spec_encode(v).unwrap();
-            let need: usize = spec_decode(s, &e).takes.iter().map(|t| t.len).sum();
-            (s.clone(), v.clone(), e, need)
+        .filter_map(|(s, v)| {
+            let e = real_plain(v)?;
+            let (sv, c) = real_decode(s, &e).ok()?;
+            if c != e.len() {
+                return None;
+            }
+            // bytes the message needs in the scratch buffer, from the field layout of the encoding
+            let sd = spec_decode(s, &e);
+            sd.result.as_ref().ok()?;
+            let need: usize = sd.takes.iter().map(|t| t.len).sum();
+            Some((s.clone(), sv, e, need))
         })
         .collect();
     // --- writers ---
-    enc.par_iter().enumerate().for_each(|(i, (_s, v, e, _))| {
+    let originals: Vec<(Val, Vec<u8>)> = items.iter().filter_map(|(_, v)| real_plain(v).map(|e| (v.clone(), e))).collect();
+    originals.par_iter().enumerate().for_each(|(i, (v, e))| {
         for kind in [Kind::Std, Kind::Eio] {
             let order = (i as u64) << 8;
             // probe the number of choice points with the default schedule
